@@ -285,6 +285,21 @@ impl Query {
             format!("{}hop-{}", hops.len(), dirs(&hops))
         };
         f.insert("pattern", pattern);
+        let mut seen: Vec<&str> = vec![];
+        let mut shared = false;
+        for p in &self.paths {
+            let mut mine: Vec<&str> = vec![];
+            for n in std::iter::once(&p.start).chain(p.hops.iter().map(|h| &h.to)) {
+                if seen.contains(&n.var.as_str()) || mine.contains(&n.var.as_str()) {
+                    shared = true;
+                }
+                mine.push(&n.var);
+            }
+            seen.extend(mine);
+        }
+        f.insert("join", if shared { "shared-var" } else { "none" }.into());
+        let evars = self.edge_vars();
+        f.insert("edge_prop_read", if self.props_read().iter().any(|(v, _)| evars.contains(v)) { "yes" } else { "no" }.into());
         f.insert("varlen", if hops.iter().any(|h| h.varlen.is_some()) { "yes" } else { "no" }.into());
         let nlab: usize = self.paths.iter().map(|p| std::iter::once(&p.start).chain(p.hops.iter().map(|h| &h.to)).map(|n| n.labels.len()).max().unwrap_or(0)).max().unwrap_or(0);
         f.insert("labels", match nlab {
@@ -552,6 +567,9 @@ impl Query {
         }
         // a projected property becomes the variable itself
         for (i, it) in self.items.iter().enumerate() {
+            if self.order_by.as_ref().is_some_and(|o| o.key == *it) {
+                continue; // keep a returned sort key returned
+            }
             if let Item::Prop(v, _) = it {
                 let mut q = self.clone();
                 q.items[i] = Item::Var(v.clone());
